@@ -13,6 +13,10 @@ def F(name, entry, enforce, mode, props, w=None, tier="quick", **kw):
     kw.setdefault("solvers", ["minisat"] if mode != "M1" else ["kissat", "minisat"])
     if mode == "M2":
         kw.setdefault("weave", WEAVE)
+        # cone-of-influence slicing: the encoders' formulas shrink from >12M to ~5M variables (OOM -> minutes);
+        # the decoders are better off without it (slicing itself needs more memory there)
+        if "Encode" in name:
+            kw.setdefault("flags", ["--slice-formula"])
     else:
         kw.setdefault("unwind", 10)
     JOBS.append(Job(name="for/" + name, props=props, src="for.c", entry=entry, mode=mode, enforce=enforce,
@@ -26,6 +30,7 @@ F("BatchAnalyze", "H_forBatchAnalyze", "varintFORBatchAnalyze", "M1", ["C02", "C
   note="loop-free dispatcher; callee varintFORAnalyze replaced by its (enforced) contract")
 for w in range(1, 9):
     tier = "quick" if w in (1, 8) else "thorough"
+    etier = "quick" if w == 1 else "thorough"     # encoder jobs: 2.5 min at width 1, 12 min at width 8
     F("Decode/w%d" % w, "H_forDecode", "varintFORDecode", "M2", ["C13", "C02"], w, tier, replace=SC_GET)
     F("DecodeBlock/w%d" % w, "H_forDecodeBlock", "varintFORDecodeBlock", "M2", ["C13", "C02"], w, tier, replace=SC_GET)
     F("BatchDecode/w%d" % w, "H_forBatchDecode", "varintFORBatchDecode", "M1", ["C13", "C02"], w, tier,
@@ -35,11 +40,20 @@ for w in range(1, 9):
     F("GetMinValue/w%d" % w, "H_forGetMinValue", "varintFORGetMinValue", "M1", ["C16"], w, tier)
     F("GetCount/w%d" % w, "H_forGetCount", "varintFORGetCount", "M1", ["C16"], w, tier)
     F("GetOffsetWidth/w%d" % w, "H_forGetOffsetWidth", "varintFORGetOffsetWidth", "M1", ["C16"], w, tier)
-    for variant, defs, props in (("reuse", ["FOR_META_REUSE=1"], ["C03", "C02", "C16"]),
-                                 ("null", ["FOR_META_NULL=1"], ["C02"]),
-                                 ("out", [], ["C02", "C16", "C15"])):
+    for variant, defs, props in (("reuse", ["FOR_META_REUSE=1", "FOR_NO_HDRBYTES=1"], ["C03", "C02", "C16"]),
+                                 ("out", ["FOR_CASE_WIDTH=1"], ["C02", "C16", "C15"])):
         rep = SC_PUT + ["varintFORAnalyze"]
-        F("Encode/%s/w%d" % (variant, w), "H_forEncode", "varintFOREncode", "M2", props, w, tier, defs=defs, replace=rep)
+        F("Encode/%s/w%d" % (variant, w), "H_forEncode", "varintFOREncode", "M2", props, w, etier, defs=defs, replace=rep)
+        if variant == "reuse":
+            # header bytes (tagged min | width | tagged count): exact payload frame so that the header survives the loop
+            # havoc; without the payload-content invariant and without slicing (each of those alone exhausts memory here)
+            F("Encode/hdr/w%d" % w, "H_forEncode", "varintFOREncode", "M2", ["C02", "C16"], w, "thorough",
+              defs=["FOR_META_REUSE=1", "FOR_NO_CONTENT=1"], replace=rep, flags=[])
         rep2 = SC_PUT + ["varintFORBatchAnalyze"]
         F("BatchEncode/%s/w%d" % (variant, w), "H_forBatchEncode", "varintFORBatchEncode", "M2", props, w,
           "thorough" if w != 1 else tier, defs=defs, replace=rep2)
+
+# meta == NULL: CBMC 6.11 aborts (symex invariant violation, goto_symex_state rename) on the loop-contract pipeline when
+# `meta` is constrained to NULL, and a bounded end-to-end composition (H_forEndToEnd, kept in the harness) did not finish
+# within 15 minutes even for two elements; the NULL call form differs from the out-parameter form only by the skipped
+# `*meta = localMeta` copy and is recorded as not covered.
